@@ -239,11 +239,12 @@ class _ExprInliner(ast.NodeTransformer):
 def _comp_with_helper_to_loop(M, fn, st: ast.stmt) -> Optional[List[ast.stmt]]:
     """name = [f(x) for x in S (if c)] where f is a multi-statement private helper  ->  name = []; for x in S: (if c:) name.append(f(x))
     (the helper is then inlined into the loop body by the next round)"""
-    if not (isinstance(st, ast.Assign) and len(st.targets) == 1 and isinstance(st.targets[0], ast.Name) and isinstance(st.value, ast.ListComp)
-            and len(st.value.generators) == 1 and not st.value.generators[0].is_async):
+    is_ret = isinstance(st, ast.Return) and isinstance(st.value, ast.ListComp)
+    if not ((isinstance(st, ast.Assign) and len(st.targets) == 1 and isinstance(st.targets[0], ast.Name) and isinstance(st.value, ast.ListComp)) or is_ret) \
+            or len(st.value.generators) != 1 or st.value.generators[0].is_async:
         return None
     lc = st.value
-    name = st.targets[0].id
+    name = f"__ret{next(_counter)}" if is_ret else st.targets[0].id
     if any(isinstance(n, ast.Name) and n.id == name for n in ast.walk(lc)):
         return None
     hs = [c for c in ast.walk(lc.elt) if isinstance(c, ast.Call) and _resolve_helper(M, fn, c) is not None and
@@ -263,7 +264,8 @@ def _comp_with_helper_to_loop(M, fn, st: ast.stmt) -> Optional[List[ast.stmt]]:
             t.ctx = ast.Store()
     loop = ast.For(target=tgt, iter=g.iter, body=body, orelse=[])
     init = ast.Assign(targets=[ast.Name(id=name, ctx=ast.Store())], value=ast.List(elts=[], ctx=ast.Load()))
-    return [ast.fix_missing_locations(ast.copy_location(x, st)) for x in (init, loop)]
+    tail = [ast.Return(value=ast.Name(id=name, ctx=ast.Load()))] if is_ret else []
+    return [ast.fix_missing_locations(ast.copy_location(x, st)) for x in [init, loop] + tail]
 
 
 def _inline_block(M, fn, stmts: List[ast.stmt], caller_locals: set, changed: List[str], depth: int) -> List[ast.stmt]:
@@ -1153,5 +1155,14 @@ def normalise(M, fn, subst: bool = False, guards: bool = False, keep=(), comps: 
         # only the temporaries the normaliser itself introduced for helper / closure arguments are put back (single use)
         _forward_subst(node, {n.id for n in ast.walk(node) if isinstance(n, ast.Name) and not n.id.startswith("__")}, alias_only=True)
     node = _OperatorCalls(M, fn).visit(node)
+    # temporaries of the normaliser that nothing reads any more (their loop was unrolled, their use substituted) are dropped
+    loads = {n.id for n in ast.walk(node) if isinstance(n, ast.Name) and isinstance(n.ctx, ast.Load)}
+    for block in _blocks(node):
+        if not block:
+            continue
+        kept = [st for st in block if not (isinstance(st, ast.Assign) and len(st.targets) == 1 and isinstance(st.targets[0], ast.Name) and
+                                           st.targets[0].id.startswith("__") and st.targets[0].id not in loads and
+                                           isinstance(st.value, (ast.List, ast.Tuple, ast.Name, ast.Constant, ast.Attribute, ast.Dict)))]
+        block[:] = kept or [ast.Pass()]
     ast.fix_missing_locations(node)
     return node
